@@ -668,8 +668,15 @@ class Coverage:
                 node = inner[0]
 
         def is_inc(name):
-            return lambda x: isinstance(x, ast.AugAssign) and isinstance(x.op, ast.Add) and isinstance(x.target, ast.Name) and x.target.id == name \
-                and isinstance(x.value, ast.Constant) and x.value.value == 1
+            def f(x):
+                if isinstance(x, ast.AugAssign) and isinstance(x.op, ast.Add) and isinstance(x.target, ast.Name) and x.target.id == name \
+                        and isinstance(x.value, ast.Constant) and x.value.value == 1:
+                    return True
+                # `c = c + 1` / `c = 1 + c`
+                return isinstance(x, ast.Assign) and len(x.targets) == 1 and isinstance(x.targets[0], ast.Name) and x.targets[0].id == name \
+                    and isinstance(x.value, ast.BinOp) and isinstance(x.value.op, ast.Add) \
+                    and sorted(ast.dump(y) for y in (x.value.left, x.value.right)) == sorted([ast.dump(ast.Name(id=name, ctx=ast.Load())), ast.dump(ast.Constant(value=1))])
+            return f
 
         def stores_to(name):
             return [x for x in ast.walk(fnode) if (isinstance(x, ast.AugAssign) and isinstance(x.target, ast.Name) and x.target.id == name)
@@ -711,38 +718,48 @@ class Coverage:
             raise OutsideSubset("the running index is not incremented after the store in the same innermost body")
         if any(isinstance(x, (ast.If, ast.While, ast.Try, ast.Break, ast.Continue, ast.Return)) for top in (topA, topB) for x in ast.walk(top)):
             raise OutsideSubset("conditional control flow inside a loop nest")
-        # identical headers and header-defining assignments
-        def headers(path):
-            hs, names = [], set()
-            for f in path:
-                hs.append((ast.dump(f.target), ast.dump(f.iter)))
-                names |= {x.id for x in ast.walk(f.iter) if isinstance(x, ast.Name)}
-            return hs, names
-        hA, nA = headers(pathA)
-        hB, nB = headers(pathB)
+        # identical headers and header-defining assignments, up to a renaming of the loop variables and of the names those assignments bind
+        import copy
+
+        def canon(path):
+            ren, out, free = {}, [], set()
+
+            def rn(node):
+                node = copy.deepcopy(node)
+                for x in ast.walk(node):
+                    if isinstance(x, ast.Name):
+                        if x.id in ren:
+                            x.id = ren[x.id]
+                        elif x.id not in ("range", "len"):
+                            free.add(x.id)
+                return ast.dump(node)
+
+            for depth, f in enumerate(path):
+                out.append(("for", rn(f.iter)))
+                for x in ast.walk(f.target):
+                    if isinstance(x, ast.Name):
+                        ren[x.id] = f"v{len(ren)}"
+                later = {y.id for g in path[depth + 1:] for y in ast.walk(g.iter) if isinstance(y, ast.Name)}
+                for st in f.body:
+                    if isinstance(st, ast.Assign) and len(st.targets) == 1 and isinstance(st.targets[0], ast.Name) and st.targets[0].id in later:
+                        out.append(("def", rn(st.value)))
+                        ren[st.targets[0].id] = f"v{len(ren)}"
+            return out, set(ren), free
+
+        hA, boundA, freeA = canon(pathA)
+        hB, boundB, freeB = canon(pathB)
         if hA != hB:
-            raise OutsideSubset("the two loop nests have different headers")
-        loopvars = {x.id for f in pathA for x in ast.walk(f.target) if isinstance(x, ast.Name)}
-        defs = {}
-        for tag, path in (("A", pathA), ("B", pathB)):
-            for f in path:
-                for x in f.body:
-                    if isinstance(x, ast.Assign) and len(x.targets) == 1 and isinstance(x.targets[0], ast.Name) and x.targets[0].id in (nA - loopvars):
-                        defs.setdefault(x.targets[0].id, {})[tag] = ast.dump(x.value)
-        for n_, d in defs.items():
-            if d.get("A") != d.get("B"):
-                raise OutsideSubset(f"`{n_}` (used in a loop header) is defined differently in the two nests")
-        free = (nA - loopvars - set(defs)) | {x.id for n_ in defs for f in pathA for y in f.body if isinstance(y, ast.Assign) and y.targets[0] is not None
-                                              and isinstance(y.targets[0], ast.Name) and y.targets[0].id == n_ for x in ast.walk(y.value) if isinstance(x, ast.Name)} - loopvars
-        free.discard("range")
-        # nothing in the function stores into (or re-binds) the objects the headers read
+            raise OutsideSubset("the two loop nests have different headers (after renaming their loop variables)")
+        free = freeA | freeB
+        bound = boundA | boundB
+        # nothing in the function stores into (or re-binds) the objects the headers read; element / attribute stores through a header-defined name count too
         for x in ast.walk(fnode):
             tg = x.targets if isinstance(x, ast.Assign) else [x.target] if isinstance(x, (ast.AugAssign, ast.AnnAssign)) else []
             for t in tg:
                 r = t
                 while isinstance(r, (ast.Subscript, ast.Attribute)):
                     r = r.value
-                if isinstance(r, ast.Name) and (r.id in free or (r.id in defs and r is not t)):
+                if isinstance(r, ast.Name) and (r.id in free or (r.id in bound and r is not t)):
                     raise OutsideSubset(f"`{ast.unparse(t)}` is stored into (line {x.lineno}): the loop bounds may differ between the nests")
         # no read of the array before nest B is complete
         upto = rest[:rest.index(topB) + 1]
